@@ -556,6 +556,24 @@ def decl_text(repo, fi, subst):
     return sorted(out)
 
 
+def _hands_on_chars(mod, par, u):
+    """`chars` passed as the `chars` argument of a function of the module
+    that has such a parameter (and is held to the same rule)."""
+    call = par if isinstance(par, ast.Call) else getattr(par, '_parent',
+                                                         None)
+    if not (isinstance(call, ast.Call) and isinstance(call.func, ast.Name)):
+        return False
+    h = mod.functions.get(call.func.id)
+    if h is None or h.parent_func is not None or \
+            'chars' not in h.params():
+        return False
+    if isinstance(par, ast.keyword):
+        return par.arg == 'chars'
+    pos = [i for i, a in enumerate(call.args) if a is u]
+    return bool(pos) and pos[0] < len(h.params()) and \
+        h.params()[pos[0]] == 'chars'
+
+
 def check_trim_set_reaches_strip(repo, rep):
     """R19f: trim / trimLeft / trimRight / norm / isEmpty share one notion
     of "characters to trim": each hands its `chars` parameter, as it is, to
@@ -582,6 +600,9 @@ def check_trim_set_reaches_strip(repo, rep):
                     'strip', 'lstrip', 'rstrip') and par.args == [u] and \
                     not par.keywords:
                 strips += 1
+            elif isinstance(par, (ast.Call, ast.keyword)) and \
+                    _hands_on_chars(mod, par, u):
+                strips += 1     # handed on to a sibling with a trim set
             else:
                 bad.append(u)
         rep.ob('R19f', fi.key + '/chars-reaches-strip', not bad and strips,
